@@ -1648,7 +1648,8 @@ yaml.add_representer(np.int64, int_representer)
 
 
 def float_representer(dumper, data):
-    return dumper.represent_float(data)
+    # plain float: PyYAML writes repr(data), which for numpy >= 2 scalars is 'np.float64(...)' and cannot be read back
+    return dumper.represent_float(float(data))
 
 
 yaml.add_representer(np.float32, float_representer)
